@@ -130,7 +130,7 @@ func TestC07(t *testing.T) {
 		})
 		stats.C.Class("exhaustive/filters", n)
 		if bad == 0 {
-			stats.C.Note("bounded-exhaustive part: %d filters (all shapes <= 2 leaves over 3 names x 3 values x all 64 maps; all 3-leaf shapes over 2 names x 16 maps) enumerated completely", n)
+			stats.C.Note("bounded-exhaustive part: %d filters (all shapes <= 2 leaves over 3 names x 4 values x all 125 maps; all 3-leaf shapes over 2 names x 16 maps) enumerated completely", n)
 		}
 	})
 }
@@ -241,7 +241,7 @@ func exhaustiveC07(check func(text string, c *filt.Cond, maps []map[string]strin
 		}
 	}
 	// <= 2 leaves, 3 names x 3 values, all 64 maps
-	names3, values3 := []string{"x", "", "a b"}, []string{"", "x", "xy"}
+	names3, values3 := []string{"x", "", "a b"}, []string{"", "x", "xy", "y"}
 	t3 := mkTerms(mkBasics(names3, values3))
 	m3 := mkMaps(names3, values3)
 	for _, a := range t3 {
